@@ -21,6 +21,10 @@ From Coq Require Import Arith List Bool.
 From QV.Core Require Import OF Sums Mat.
 Import ListNotations.
 
+(* LossMinimizationEstimator.calc_estimate_sequence / CvxpyLossMinimizationEstimator.calc_estimate_sequence: the list of estimates is the
+   per-data-set result of (configure loss and algorithm for the data set; optimise), independently of the reporting flags *)
+Definition C11_estimate_sequence {D V : Type} (configure_and_optimize : D -> V) (datas : list D) : list V := map configure_and_optimize datas.
+
 Section C11_Pgdb.
 Context (F : OF).
 Notation "0" := (c0 F). Notation "1" := (c1 F).
